@@ -52,14 +52,5 @@ Lemma tie_store :
                 ("norms", "model.data[norms]"); ("explained_variance", "bst_expvar"); ("total_variance", "bst_total_variance")].
 Proof. reflexivity. Qed.
 
-(* NAMES.  The property quantifies over every sample_name / feature_name.  The source addresses
-   the sample dimension by the LITERAL "sample" at the sites below, so the positive obligation
-   [boot_literal_dims = []] (kept in Proofs/C20_names.v) does not hold on this tree: refuted. *)
-Lemma tie_names_refuted : boot_literal_dims <> [].
-Proof. discriminate. Qed.
-
-Lemma tie_literal_sites :
-  boot_literal_dims = ["input_data.sample"; "bst_model.fit:dim=sample"; "(bst_scores * model_scores).mean:sample";
-                       "bst_scores.std:sample"; "model_scores.std:sample"] /\
-  boot_member_names_forwarded = [].
-Proof. split; reflexivity. Qed.
+(* NAMES: the positive obligation (no dimension addressed by a string literal, member built with the
+   model's own names) is Proofs/C20_names.v (tie_names). *)
